@@ -35,7 +35,7 @@ RULE = ("seeded programs of 1-3 caller threads x up to 8 operations (construct a
         "ordered pairs of classes 'build A, build B, decode/encode with A' (all 1764 in thorough, 252 in quick). Non-trivial = "
         "multi-threaded run with at least one pre-emption inside library code, or a sequential run with two different classes; "
         "distinct = event digest (includes the switch sequence at file:line)")
-ENUMERATED_NOTE = "ordered pairs (A, B) of the 42 command classes, sequential: build A, build B, decode own CDB with A, re-encode, recheck A"
+ENUMERATED_NOTE = "(1) ordered pairs (A, B) of the 42 command classes, sequential: build A, build B, decode own CDB with A, re-encode, recheck A; (2) two threads on one shared facade+device, one call each: every single pre-emption point of the first call (700 step positions) x 3 (quick) / 8 (thorough) call pairs x 2 transports, the second thread running its whole call inside the window"
 COMPONENTS = {"real": ["all command classes", "SCSICommand", "converter", "SCSI facade + SCSIDevice for facade ops"],
               "stubs": ["sgio module", "virtual /dev", "threading.Lock/RLock replaced by cooperative locks (library uses none today)"],
               "simulated_peers": ["t10.targets.BlockLU per thread", "baton thread scheduler deciding every interleaving"]}
@@ -46,7 +46,7 @@ ASSUMPTIONS = [
 ]
 MINIMISE_SCHEDULE = True
 AUX_NAME = "interleavings (sequence of thread switches with the file:line they happened at)"
-REQUIRED_PROBES = ["preempt_in_library", "switch_in_SCSICommand_init", "three_threads", "facade_in_thread", "failed_construction"]
+REQUIRED_PROBES = ["shared_device_threads", "preempt_in_library", "switch_in_SCSICommand_init", "three_threads", "facade_in_thread", "failed_construction"]
 
 # class key -> (module, class name, opcode set, opcode attr or ('get', suffix), needs blocksize, facade generator key)
 M = "pyscsi.pyscsi."
@@ -187,6 +187,8 @@ def gen_thread_ops(rng, n, classes, allow_facade):
             ops.append({"op": "decode_foreign", "slot": rng.randrange(len(slots)), "cls": rng.choice(classes + ["ReadCapacity16", "GetLBAStatus", "ReportPriority", "ReportTargetPortGroups"]),
                         "tw": None})
             ops[-1]["tw"] = gen_ctor(rng, ops[-1]["cls"])
+        elif r < 0.575:
+            ops.append({"op": "scribble", "slot": rng.randrange(len(slots)), "n": rng.choice([1, 4, 36])})
         elif r < 0.585:
             ops.append({"op": "rebuild", "slot": rng.randrange(len(slots))})
         elif r < 0.6:
@@ -224,7 +226,35 @@ def gen_strategy(rng):
     return s
 
 
+SHARED_CALLS = ["inquiry", "inquiry", "testunitready", "readcapacity10", "readcapacity16", "reportluns", "modesense6", "modesense10",
+                "read10", "read16", "getlbastatus", "reporttargetportgroups"]
+SHARED_FAULTS = [None, None, None,
+                 {"kind": "status", "byte": 2, "sense": "70000600000000000a00000000290000000000"},
+                 {"kind": "status", "byte": 2, "sense": "7200044400000000"},
+                 {"kind": "status", "byte": 2, "sense": "70000200000000000a00000000040100000000"},
+                 {"kind": "status", "byte": 8}, {"kind": "status", "byte": 0x18}, {"kind": "status", "byte": 0x28}]
+
+
+def gen_shared(rng, idx):
+    """two or three caller threads share ONE facade object and ONE device (state-independent commands only, so that every
+    command's outcome is defined by itself), each command with its own injected completion status"""
+    nt = rng.choice([2, 2, 3])
+    ops = []
+    for t in range(nt):
+        for _ in range(rng.choice([1, 2, 3, 4])):
+            m = rng.choice(SHARED_CALLS)
+            call = F.gen_call(rng, m, CFG)
+            if m in ("read10", "read16"):
+                call["args"] = [rng.randrange(1000), rng.choice([0, 1, 2])]
+            call["kw"].pop("alloclen", None)
+            ops.append(dict(op="sfacade", thread=t, fault=rng.choice(SHARED_FAULTS), **call))
+    return {"property": ID, "config": {"strategy": gen_strategy(rng), "sched_seed": rng.randrange(1 << 62),
+                                       "shared": {"transport": rng.choice(["sgio", "iscsi"])}}, "ops": ops}
+
+
 def generate(rng, idx, tier):
+    if rng.random() < 0.18:
+        return gen_shared(rng, idx)
     nt = rng.choice([1, 2, 2, 2, 3, 3])
     pool = rng.sample(NAMES, rng.choice([2, 3, 5, 42]))
     threads = [gen_thread_ops(rng, rng.choice([2, 3, 4, 6, 8]), pool, True) for _ in range(nt)]
@@ -232,11 +262,42 @@ def generate(rng, idx, tier):
             "ops": [{"thread": t, **op} for t, ops in enumerate(threads) for op in ops]}
 
 
+S_MAX = 700           # more line steps than one facade call takes
+SHARED_PAIRS = [("inquiry", 3, "readcapacity16", 0), ("testunitready", 6, "inquiry", 4), ("readcapacity10", 0, "reportluns", 3),
+                ("modesense6", 5, "read10", 0), ("inquiry", 0, "inquiry", 3), ("read16", 7, "testunitready", 0),
+                ("reportluns", 4, "modesense10", 0), ("getlbastatus", 0, "readcapacity16", 5)]
+
+
+def n_pairs(tier):
+    return 8 if tier == "thorough" else 3
+
+
 def enumerated_count(tier):
-    return 42 * 42 if tier == "thorough" else 42 * 6
+    return (42 * 42 if tier == "thorough" else 42 * 6) + n_pairs(tier) * S_MAX * 2
+
+
+def enumerated_atomicity(k, tier):
+    """every single pre-emption point: thread 0 is pre-empted at global step s, thread 1 then runs its whole call on the
+    SAME facade and device, thread 0 resumes (all atomicity windows of one call, at source-line granularity)"""
+    pair = SHARED_PAIRS[(k // S_MAX) % n_pairs(tier)]
+    transport = "iscsi" if (k // (S_MAX * n_pairs(tier))) % 2 else "sgio"
+    s = k % S_MAX
+    rng = random.Random(k // S_MAX)
+    ops = []
+    for t, (m, fi) in enumerate(((pair[0], pair[1]), (pair[2], pair[3]))):
+        call = F.gen_call(rng, m, CFG)
+        call["kw"].pop("alloclen", None)
+        if m in ("read10", "read16"):
+            call["args"] = [7, 1]
+        ops.append(dict(op="sfacade", thread=t, fault=SHARED_FAULTS[fi], **call))
+    return {"property": ID, "config": {"strategy": {"kind": "replay", "p_op": 0.0}, "sched_seed": 0, "shared": {"transport": transport}},
+            "schedule": [[0, 0], [s + 1, 1]], "ops": ops}
 
 
 def enumerated(k, tier):
+    base = 42 * 42 if tier == "thorough" else 42 * 6
+    if k >= base:
+        return enumerated_atomicity(k - base, tier)
     if tier == "thorough":
         a, b = NAMES[k // 42], NAMES[k % 42]
     else:
@@ -293,6 +354,8 @@ def snap(cmd):
 
 
 class ThreadCtx:
+    shared = None
+
     def __init__(self, t):
         self.t = t
         self.slots = []
@@ -335,6 +398,21 @@ def do_op(ctx, op, reference):
             ctx.slot_specs.append(op)
             ctx.snaps.append(snap(cmd))
             return ctx.snaps[-1]
+        if kind == "sfacade":
+            scsi = ctx.shared
+            if scsi is None:        # reference run: a device and a facade of its own
+                lu = worlds.make_lu(CFG, ident=1)
+                scsi = worlds.lib()[0](worlds.open_device(op["_transport"], lu), blocksize=512)
+            if op.get("fault"):
+                WORLD.arm(dict(op["fault"], thread=ctx.t if ctx.shared is not None else None))
+            WORLD.probe("shared_facade_call")
+            try:
+                cmd = getattr(scsi, op["m"])(*F.real_args(op["args"]), **F.real_args(op["kw"]))
+            except Exception as e:  # noqa
+                if hasattr(e, "asc"):
+                    return "exc:%s:%r" % (type(e).__name__, (getattr(e, "data", {}).get("sense_key"), e.asc, e.ascq))
+                raise
+            return [snap(cmd), canon(cmd.result)]
         if kind == "construct_twice":
             pre = (F.real_args(op["args"]), F.real_args(op["kw"]))
             first = snap(construct(op, prebuilt=pre))
@@ -349,6 +427,16 @@ def do_op(ctx, op, reference):
                 except Exception:  # noqa
                     pass
             return canon(_cls(op["cls"]).unmarshall_cdb(bytes(ctx.slots[op["slot"]].cdb)))
+        if kind == "scribble":
+            # the owner grows / fills its own command's buffers in place (e.g. appends parameter data); nobody else's may change
+            if op["slot"] >= len(ctx.slots) or ctx.slots[op["slot"]] is None:
+                return "no-object"
+            cmd = ctx.slots[op["slot"]]
+            for buf in (cmd.dataout, cmd.datain):
+                if isinstance(buf, bytearray):
+                    buf.extend(b"\xa5" * op["n"])
+            ctx.snaps[op["slot"]] = snap(cmd)
+            return "scribbled"
         if kind == "rebuild":
             # the command's own build_cdb, called twice with equal inputs (the fields decoded from its CDB)
             if op["slot"] >= len(ctx.slots) or ctx.slots[op["slot"]] is None:
@@ -412,7 +500,7 @@ def by_thread(prog):
 
 def _alone(arg):
     """one operation in a pristine process: only the object it refers to is built first"""
-    t, op, slot_spec = arg
+    t, op, slot_spec, scribbles = arg
     WORLD.reset()
     ctx = ThreadCtx(t)
     if slot_spec is not None:
@@ -424,6 +512,8 @@ def _alone(arg):
         ctx.slot_specs.append(slot_spec)
         ctx.snaps.append(snap(ctx.slots[0]) if ctx.slots[0] is not None else None)
         op = dict(op, slot=0)
+        for n_ in scribbles:         # what the owner itself did to this object earlier
+            do_op(ctx, {"op": "scribble", "slot": 0, "n": n_}, True)
     out = do_op(ctx, op, True)
     fin = snap(ctx.slots[-1]) if op["op"] == "construct" and ctx.slots and ctx.slots[-1] is not None else None
     return {"out": out, "final": fin}
@@ -439,9 +529,16 @@ def compute_reference(prog):
         ctx = ThreadCtx(t)
         specs = []
         finals = []
+        scr = {}
         for i, op in lst:
             if op["op"] in ("attach", "facade"):
                 out[str(i)] = do_op(ctx, op, True)
+                continue
+            if op["op"] == "sfacade":
+                r = core.fork_run(_alone, (t, dict(op, _transport=prog["config"]["shared"]["transport"]), None, []))
+                if "harness_error" in r:
+                    raise RuntimeError("alone-reference failed: " + r["harness_error"])
+                out[str(i)] = r["out"]
                 continue
             slot_spec = None
             if "slot" in op:
@@ -449,7 +546,9 @@ def compute_reference(prog):
                     out[str(i)] = "no-object"
                     continue
                 slot_spec = specs[op["slot"]]
-            r = core.fork_run(_alone, (t, op, slot_spec))
+            r = core.fork_run(_alone, (t, op, slot_spec, scr.get(op.get("slot"), []) if "slot" in op else []))
+            if op["op"] == "scribble":
+                scr.setdefault(op["slot"], []).append(op["n"])
             if "harness_error" in r:
                 raise RuntimeError("alone-reference failed: " + r["harness_error"])
             out[str(i)] = r["out"]
@@ -472,6 +571,12 @@ def execute(prog):
                         PREFIX, trace=prog.get("schedule"))
     got = {}
     ctxs = [ThreadCtx(t) for t in range(nt)]
+    if cfg.get("shared"):
+        lu0 = worlds.make_lu(CFG, ident=1)
+        shared_scsi = worlds.lib()[0](worlds.open_device(cfg["shared"]["transport"], lu0), blocksize=512)
+        for c in ctxs:
+            c.shared = shared_scsi
+        WORLD.probe("shared_device_threads")
 
     def make_body(t):
         def body(_):
@@ -489,7 +594,9 @@ def execute(prog):
         for i, op in lst:
             want, have = ref.get(str(i)), got.get(str(i))
             if want != have:
-                if op["op"] in ("construct", "decode", "unmarshall_datain", "roundtrip_datain", "construct_twice"):
+                if op["op"] == "sfacade":
+                    who = op["m"]
+                elif op["op"] in ("construct", "decode", "unmarshall_datain", "roundtrip_datain", "construct_twice"):
                     who = op["cls"]
                 elif "slot" in op and op["slot"] < len(ctxs[t].slot_specs):
                     who = ctxs[t].slot_specs[op["slot"]]["cls"]
@@ -514,7 +621,10 @@ def execute(prog):
         if final != ctxs[t].snaps:
             V.append(dict(oracle="C09.object-changed", where="threads" if multi else "sequential", detail="held-object",
                           expected="objects held by thread %d unchanged since construction" % t, actual="cdb/buffers differ at the end"))
-        if final != ref.get("final%d" % t):
+        scribbled = set(op["slot"] for _, op in lst if op["op"] == "scribble")
+        ref_final = ref.get("final%d" % t) or []
+        same = len(final) == len(ref_final) and all(a == b for k_, (a, b) in enumerate(zip(final, ref_final)) if k_ not in scribbled)
+        if not same:
             V.append(dict(oracle="C09.object-differs-from-alone", where="threads" if multi else "sequential", detail="held-object",
                           expected="same objects as when thread %d runs alone" % t, actual="cdb/buffers differ"))
     out, sigs = [], set()
